@@ -1,8 +1,874 @@
 package main
 
-import "golang.org/x/tools/go/ssa"
+// Models for hashing, encodings used only for hashing, keys and signatures
+// (assumptions A1–A3 of DESIGN.md §8).
 
-type hashEntry struct{}
-type sigRec struct{}
+import (
+	"crypto/sha256"
+	"fmt"
+	"go/types"
+	"math/big"
+	"reflect"
+	"sort"
+	"strings"
 
-func cryptoStub(m *machine, fn *ssa.Function, name, pkg string) intrinsic { return nil }
+	"golang.org/x/tools/go/ssa"
+)
+
+func newCell(v value) *value {
+	c := new(value)
+	*c = v
+	return c
+}
+
+// ---------------------------------------------------------------------------
+// atoms: the injective "encoding" of a structured value
+
+type atom struct {
+	k string // marker text, or "" for data atoms
+	v value  // int64 | bool | *Term | nil
+	w int    // width for ints
+}
+
+func (a atom) concrete() (string, bool) {
+	if a.v == nil {
+		return "M:" + a.k, true
+	}
+	switch v := a.v.(type) {
+	case int64:
+		return fmt.Sprintf("I%d:%d", a.w, v), true
+	case bool:
+		return fmt.Sprintf("B:%v", v), true
+	case float64:
+		return fmt.Sprintf("F:%v", v), true
+	}
+	return "", false
+}
+
+type encToken struct {
+	atoms []atom
+	typ   types.Type
+	val   value // deep copy of the encoded value (for Unmarshal round trips)
+}
+
+func jsonSkipped(st *types.Struct, i int) bool {
+	f := st.Field(i)
+	if !f.Exported() {
+		return true
+	}
+	tag := reflect.StructTag(st.Tag(i)).Get("json")
+	return tag == "-"
+}
+
+func (m *machine) flatten(t types.Type, v value, out *[]atom, depth int) {
+	if depth > 40 {
+		unsupp("encoding of a cyclic or too deep value")
+	}
+	if b, ok := v.(bad); ok {
+		unsupp("encoding of unsupported value (%s)", b.why)
+	}
+	switch u := t.Underlying().(type) {
+	case *types.Basic:
+		switch {
+		case u.Info()&types.IsString != 0:
+			if so, ok := v.(*symString); ok && so.opaque {
+				unsupp("encoding of a string formatted from symbolic values")
+			}
+			bs := m.strBytes(v)
+			*out = append(*out, atom{k: fmt.Sprintf("s%d", len(bs))})
+			for _, b := range bs {
+				*out = append(*out, atom{v: b, w: 8})
+			}
+		case u.Info()&types.IsBoolean != 0:
+			*out = append(*out, atom{v: v})
+		case u.Info()&types.IsInteger != 0:
+			w, _, _ := intKind(u)
+			*out = append(*out, atom{v: v, w: w})
+		case u.Info()&types.IsFloat != 0:
+			*out = append(*out, atom{v: v, w: 64})
+		default:
+			unsupp("encoding of %v", t)
+		}
+	case *types.Slice:
+		sl, ok := v.([]value)
+		if !ok {
+			unsupp("encoding of %T as slice", v)
+		}
+		if sl == nil {
+			*out = append(*out, atom{k: "null"})
+			return
+		}
+		*out = append(*out, atom{k: fmt.Sprintf("[%d", len(sl))})
+		for _, e := range sl {
+			m.flatten(u.Elem(), e, out, depth+1)
+		}
+	case *types.Array:
+		a := v.(array)
+		*out = append(*out, atom{k: fmt.Sprintf("[%d", len(a))})
+		for _, e := range a {
+			m.flatten(u.Elem(), e, out, depth+1)
+		}
+	case *types.Struct:
+		st := v.(structure)
+		*out = append(*out, atom{k: "{"})
+		for i := 0; i < u.NumFields(); i++ {
+			if jsonSkipped(u, i) {
+				continue
+			}
+			*out = append(*out, atom{k: u.Field(i).Name()})
+			m.flatten(u.Field(i).Type(), st[i], out, depth+1)
+		}
+		*out = append(*out, atom{k: "}"})
+	case *types.Pointer:
+		p := v.(*value)
+		if p == nil {
+			*out = append(*out, atom{k: "null"})
+			return
+		}
+		m.flatten(u.Elem(), *p, out, depth+1)
+	case *types.Map:
+		mp := v.(*mapV)
+		if mp == nil {
+			*out = append(*out, atom{k: "null"})
+			return
+		}
+		type kv struct {
+			k string
+			e *mapEntry
+		}
+		var kvs []kv
+		for _, e := range mp.entries {
+			if e.deleted {
+				continue
+			}
+			ck, ok := ckey(e.k)
+			if !ok {
+				unsupp("encoding of a map with symbolic keys")
+			}
+			kvs = append(kvs, kv{ck, e})
+		}
+		sort.Slice(kvs, func(i, j int) bool { return kvs[i].k < kvs[j].k })
+		*out = append(*out, atom{k: fmt.Sprintf("map%d", len(kvs))})
+		for _, x := range kvs {
+			m.flatten(u.Key(), x.e.k, out, depth+1)
+			m.flatten(u.Elem(), x.e.v, out, depth+1)
+		}
+	case *types.Interface:
+		itf := v.(iface)
+		if itf.t == nil {
+			*out = append(*out, atom{k: "null"})
+			return
+		}
+		*out = append(*out, atom{k: "<" + itf.t.String() + ">"})
+		m.flatten(itf.t, itf.v, out, depth+1)
+	default:
+		unsupp("encoding of %v", t)
+	}
+}
+
+func deepCopy(v value, depth int) value {
+	if depth > 40 {
+		return v
+	}
+	switch v := v.(type) {
+	case structure:
+		o := make(structure, len(v))
+		for i := range v {
+			o[i] = deepCopy(v[i], depth+1)
+		}
+		return o
+	case array:
+		o := make(array, len(v))
+		for i := range v {
+			o[i] = deepCopy(v[i], depth+1)
+		}
+		return o
+	case []value:
+		if v == nil {
+			return []value(nil)
+		}
+		o := make([]value, len(v))
+		for i := range v {
+			o[i] = deepCopy(v[i], depth+1)
+		}
+		return o
+	case *value:
+		if v == nil {
+			return v
+		}
+		return newCell(deepCopy(*v, depth+1))
+	case *mapV:
+		if v == nil {
+			return v
+		}
+		n := newMap(v.keyT)
+		for _, e := range v.entries {
+			if e.deleted {
+				continue
+			}
+			ne := &mapEntry{k: deepCopy(e.k, depth+1), v: deepCopy(e.v, depth+1), ck: e.ck, sym: e.sym}
+			n.entries = append(n.entries, ne)
+			if !ne.sym {
+				n.idx[ne.ck] = ne
+			} else {
+				n.nsym++
+			}
+			n.live++
+		}
+		return n
+	case iface:
+		return iface{t: v.t, v: deepCopy(v.v, depth+1)}
+	}
+	return v
+}
+
+func (m *machine) encode(t types.Type, v value) value {
+	var atoms []atom
+	atoms = append(atoms, atom{k: "T<" + t.String() + ">"})
+	m.flatten(t, v, &atoms, 0)
+	tok := &opaque{kind: "enc", data: &encToken{atoms: atoms, typ: t, val: deepCopy(v, 0)}}
+	return []value{tok}
+}
+
+// dropUnexported zeroes fields json would not carry.
+func (m *machine) jsonProject(t types.Type, v value, depth int) value {
+	switch u := t.Underlying().(type) {
+	case *types.Struct:
+		st := v.(structure)
+		o := make(structure, len(st))
+		for i := range st {
+			if jsonSkipped(u, i) {
+				o[i] = zero(u.Field(i).Type())
+			} else {
+				o[i] = m.jsonProject(u.Field(i).Type(), st[i], depth+1)
+			}
+		}
+		return o
+	case *types.Slice:
+		sl := v.([]value)
+		if sl == nil {
+			return sl
+		}
+		o := make([]value, len(sl))
+		for i := range sl {
+			o[i] = m.jsonProject(u.Elem(), sl[i], depth+1)
+		}
+		return o
+	case *types.Pointer:
+		p := v.(*value)
+		if p == nil {
+			return p
+		}
+		return newCell(m.jsonProject(u.Elem(), *p, depth+1))
+	case *types.Map:
+		mp := v.(*mapV)
+		if mp == nil {
+			return mp
+		}
+		n := newMap(mp.keyT)
+		for _, e := range mp.entries {
+			if !e.deleted {
+				m.mapInsert(n, e.k, m.jsonProject(u.Elem(), e.v, depth+1))
+			}
+		}
+		return n
+	}
+	return v
+}
+
+// ---------------------------------------------------------------------------
+// hashing
+
+type hashEntry struct {
+	atoms []atom
+	label []byte
+	ckey  string
+}
+
+func atomsOfBytes(data []value) []atom {
+	var atoms []atom
+	n := 0
+	for _, b := range data {
+		if o, ok := b.(*opaque); ok && o.kind == "enc" {
+			atoms = append(atoms, o.data.(*encToken).atoms...)
+			continue
+		}
+		atoms = append(atoms, atom{v: b, w: 8})
+		n++
+	}
+	return append([]atom{{k: fmt.Sprintf("bytes%d", n)}}, atoms...)
+}
+
+func (m *machine) hashAtoms(atoms []atom, raw []value) []value {
+	// fully concrete plain bytes: the real SHA-256
+	allc := true
+	var sb strings.Builder
+	for _, a := range atoms {
+		s, ok := a.concrete()
+		if !ok {
+			allc = false
+			break
+		}
+		sb.WriteString(s)
+		sb.WriteByte(';')
+	}
+	plain := true
+	for _, b := range raw {
+		if _, ok := b.(int64); !ok {
+			plain = false
+		}
+	}
+	mk := func(label []byte) []value {
+		out := make([]value, len(label))
+		for i, b := range label {
+			out[i] = int64(b)
+		}
+		return out
+	}
+	if allc {
+		var label [32]byte
+		if plain {
+			bs := make([]byte, len(raw))
+			for i, b := range raw {
+				bs[i] = byte(b.(int64))
+			}
+			label = sha256.Sum256(bs)
+		} else {
+			label = sha256.Sum256([]byte("verif-structural:" + sb.String()))
+		}
+		ck := sb.String()
+		// compare with symbolic entries hashed earlier on this path
+		var conds []*Term
+		var cands []*hashEntry
+		var nones []*Term
+		for i := range m.hashMemo {
+			e := &m.hashMemo[i]
+			if e.ckey != "" {
+				if e.ckey == ck {
+					return mk(e.label)
+				}
+				continue
+			}
+			eq := m.atomsEq(atoms, e.atoms)
+			if eq.isFalse() {
+				continue
+			}
+			if eq.isTrue() {
+				return mk(e.label)
+			}
+			conds = append(conds, eq)
+			nones = append(nones, m.tt.Not(eq))
+			cands = append(cands, e)
+		}
+		if len(cands) > 0 {
+			conds = append(conds, m.tt.And(nones...))
+			if i := m.decide(conds, true); i < len(cands) {
+				return mk(cands[i].label)
+			}
+		}
+		m.hashMemo = append(m.hashMemo, hashEntry{atoms: atoms, label: label[:], ckey: ck})
+		return mk(label[:])
+	}
+	// symbolic content: equal to an earlier value, or a fresh label
+	var conds []*Term
+	var cands []*hashEntry
+	var nones []*Term
+	for i := range m.hashMemo {
+		e := &m.hashMemo[i]
+		eq := m.atomsEq(atoms, e.atoms)
+		if eq.isFalse() {
+			continue
+		}
+		if eq.isTrue() {
+			return mk(e.label)
+		}
+		conds = append(conds, eq)
+		nones = append(nones, m.tt.Not(eq))
+		cands = append(cands, e)
+	}
+	if len(cands) > 0 {
+		conds = append(conds, m.tt.And(nones...))
+		if i := m.decide(conds, true); i < len(cands) {
+			return mk(cands[i].label)
+		}
+	}
+	m.ctr++
+	label := sha256.Sum256([]byte(fmt.Sprintf("verif-symbolic-hash:%d", m.ctr)))
+	m.hashMemo = append(m.hashMemo, hashEntry{atoms: atoms, label: label[:]})
+	return mk(label[:])
+}
+
+func (m *machine) atomsEq(a, b []atom) *Term {
+	if len(a) != len(b) {
+		return m.tt.Bool(false)
+	}
+	var conj []*Term
+	for i := range a {
+		x, y := a[i], b[i]
+		if (x.v == nil) != (y.v == nil) {
+			return m.tt.Bool(false)
+		}
+		if x.v == nil {
+			if x.k != y.k {
+				return m.tt.Bool(false)
+			}
+			continue
+		}
+		if x.w != y.w {
+			return m.tt.Bool(false)
+		}
+		eq := m.boolOf(m.equals(nil, x.v, y.v))
+		if eq.isFalse() {
+			return eq
+		}
+		conj = append(conj, eq)
+	}
+	return m.tt.And(conj...)
+}
+
+// ---------------------------------------------------------------------------
+// keys, big integers, signatures
+
+type keyPart struct {
+	id   int
+	part byte
+}
+
+type bigInfo struct {
+	label string
+	sign  value // int64 (-1,0,1) or *Term (BV 8, signed)
+	sig   *sigRec
+	part  int
+	real  *big.Int
+}
+
+type sigRec struct {
+	id     int
+	key    int
+	digest string
+	ok     value // bool | *Term
+}
+
+const maxVerifKeys = 16
+
+func keyBytes(i int) []byte {
+	x := sha256.Sum256([]byte(fmt.Sprintf("verif-key-x-%d", i)))
+	y := sha256.Sum256([]byte(fmt.Sprintf("verif-key-y-%d", i)))
+	return append(append([]byte{4}, x[:]...), y[:]...)
+}
+
+func (m *machine) ecdsaType(name string) types.Type {
+	p := m.eng.ssaPkgs["crypto/ecdsa"]
+	if p == nil {
+		unsupp("crypto/ecdsa not loaded")
+	}
+	return p.Type(name).Object().Type()
+}
+
+func (m *machine) pubKeyStruct(i int) structure {
+	st := zero(m.ecdsaType("PublicKey")).(structure)
+	st[1] = newCell(&opaque{kind: "bigkey", data: keyPart{i, 'X'}})
+	st[2] = newCell(&opaque{kind: "bigkey", data: keyPart{i, 'Y'}})
+	return st
+}
+
+func (m *machine) keyObj(i int) *value {
+	if k, ok := m.keyObjs[i]; ok {
+		return k
+	}
+	st := zero(m.ecdsaType("PrivateKey")).(structure)
+	st[0] = m.pubKeyStruct(i)
+	st[1] = newCell(&opaque{kind: "bigkey", data: keyPart{i, 'D'}})
+	k := newCell(st)
+	m.keyObjs[i] = k
+	return k
+}
+
+// keyIDOfPub returns the key id of a *ecdsa.PublicKey value, -1 when the
+// coordinates are missing, -2 for nil.
+func keyIDOfPub(pub value) (int, bool, bool) { // id, xNil, pubNil
+	p, ok := pub.(*value)
+	if !ok || p == nil {
+		return 0, false, true
+	}
+	st := (*p).(structure)
+	x, _ := st[1].(*value)
+	y, _ := st[2].(*value)
+	if x == nil || y == nil {
+		return 0, true, false
+	}
+	o, ok := (*x).(*opaque)
+	if !ok {
+		unsupp("public key with non-model coordinates")
+	}
+	return o.data.(keyPart).id, false, false
+}
+
+func bytesValue(b []byte) []value {
+	out := make([]value, len(b))
+	for i, x := range b {
+		out[i] = int64(x)
+	}
+	return out
+}
+
+func concBytes(v value) ([]byte, bool) {
+	sl, ok := v.([]value)
+	if !ok {
+		return nil, false
+	}
+	out := make([]byte, len(sl))
+	for i, e := range sl {
+		k, ok := e.(int64)
+		if !ok {
+			return nil, false
+		}
+		out[i] = byte(k)
+	}
+	return out, true
+}
+
+func (m *machine) newSig(key int, digest value, ok value) *sigRec {
+	d, conc := concBytes(digest)
+	if !conc {
+		unsupp("signature over a symbolic digest")
+	}
+	m.ctr++
+	rec := &sigRec{id: len(m.sigs) + 1, key: key, digest: string(d), ok: ok}
+	m.sigs = append(m.sigs, rec)
+	return rec
+}
+
+func sigLabel(rec *sigRec, part int) string {
+	// base-36 digits only, so that the real decoder accepts it
+	return fmt.Sprintf("vsig%d%c", rec.id, "rs"[part])
+}
+
+func (m *machine) sigBig(rec *sigRec, part int) *value {
+	return newCell(&opaque{kind: "bigint", data: &bigInfo{label: sigLabel(rec, part), sign: int64(1), sig: rec, part: part}})
+}
+
+func bigOf(v value) (*bigInfo, bool) { // nil pointer -> (nil,true)
+	p, ok := v.(*value)
+	if !ok {
+		unsupp("big.Int argument of type %T", v)
+	}
+	if p == nil {
+		return nil, true
+	}
+	o, ok := (*p).(*opaque)
+	if !ok {
+		// a plain zero big.Int structure (new(big.Int) never set)
+		if _, isSt := (*p).(structure); isSt {
+			return &bigInfo{label: "0", sign: int64(0), real: new(big.Int)}, false
+		}
+		unsupp("big.Int with unexpected payload %T", *p)
+	}
+	if o.kind == "bigkey" {
+		return &bigInfo{label: "key", sign: int64(1)}, false
+	}
+	return o.data.(*bigInfo), false
+}
+
+func isBase36(c *Term, m *machine) *Term {
+	tt := m.tt
+	in := func(lo, hi byte) *Term {
+		return tt.And(tt.Cmp("bvule", tt.BVConst(uint64(lo), 8), c), tt.Cmp("bvule", c, tt.BVConst(uint64(hi), 8)))
+	}
+	return tt.Or(in('0', '9'), in('a', 'z'), in('A', 'Z'))
+}
+
+func cryptoStub(m *machine, fn *ssa.Function, name, pkg string) intrinsic {
+	switch name {
+	case "github.com/mosaicnetworks/babble/src/crypto.SHA256":
+		return func(m *machine, c *frame, fn *ssa.Function, a []value) value {
+			data, _ := a[0].([]value)
+			return m.hashAtoms(atomsOfBytes(data), data)
+		}
+	case "github.com/mosaicnetworks/babble/src/crypto.SimpleHashFromTwoHashes":
+		return func(m *machine, c *frame, fn *ssa.Function, a []value) value {
+			l, _ := a[0].([]value)
+			r, _ := a[1].([]value)
+			data := append(append([]value{}, l...), r...)
+			return m.hashAtoms(atomsOfBytes(data), data)
+		}
+	case "crypto/sha256.Sum256":
+		return func(m *machine, c *frame, fn *ssa.Function, a []value) value {
+			data, _ := a[0].([]value)
+			h := m.hashAtoms(atomsOfBytes(data), data)
+			return array(h)
+		}
+	case "github.com/mosaicnetworks/babble/src/crypto/keys.curve":
+		return func(m *machine, c *frame, fn *ssa.Function, a []value) value { return iface{} }
+	case "github.com/mosaicnetworks/babble/src/crypto/keys.GenerateECDSAKey":
+		return func(m *machine, c *frame, fn *ssa.Function, a []value) value {
+			unsupp("random key generation is not modelled; harnesses use verifKey(i)")
+			return nil
+		}
+	case "crypto/elliptic.Marshal":
+		return func(m *machine, c *frame, fn *ssa.Function, a []value) value {
+			x, _ := a[1].(*value)
+			if x == nil {
+				panic(targetPanic{rt: "invalid memory address or nil pointer dereference"})
+			}
+			o, ok := (*x).(*opaque)
+			if !ok || o.kind != "bigkey" {
+				unsupp("elliptic.Marshal of non-model coordinates")
+			}
+			return bytesValue(keyBytes(o.data.(keyPart).id))
+		}
+	case "crypto/elliptic.Unmarshal":
+		return func(m *machine, c *frame, fn *ssa.Function, a []value) value {
+			data, _ := a[1].([]value)
+			nilRes := tuple{(*value)(nil), (*value)(nil)}
+			if len(data) != 65 {
+				return nilRes // never a valid uncompressed point
+			}
+			bs, ok := concBytes(data)
+			if !ok {
+				unsupp("elliptic.Unmarshal of a 65-byte symbolic key")
+			}
+			for i := 0; i < maxVerifKeys; i++ {
+				if string(keyBytes(i)) == string(bs) {
+					st := m.pubKeyStruct(i)
+					return tuple{st[1], st[2]}
+				}
+			}
+			return nilRes // not on the curve (A3: only the test keys are valid points)
+		}
+	case "crypto/ecdsa.Sign":
+		return func(m *machine, c *frame, fn *ssa.Function, a []value) value {
+			priv, _ := a[1].(*value)
+			if priv == nil {
+				panic(targetPanic{rt: "invalid memory address or nil pointer dereference"})
+			}
+			st := (*priv).(structure)
+			id, xnil, _ := keyIDOfPub(newCell(st[0]))
+			if xnil {
+				unsupp("signing with a key without coordinates")
+			}
+			rec := m.newSig(id, a[2], true)
+			return tuple{m.sigBig(rec, 0), m.sigBig(rec, 1), iface{}}
+		}
+	case "crypto/ecdsa.Verify":
+		return ecdsaVerifyStub
+	case "(*math/big.Int).SetString":
+		return bigSetString
+	case "(*math/big.Int).Text", "(*math/big.Int).String":
+		return func(m *machine, c *frame, fn *ssa.Function, a []value) value {
+			bi, isNil := bigOf(a[0])
+			if isNil {
+				return "<nil>"
+			}
+			if bi.real != nil {
+				base := 10
+				if len(a) > 1 {
+					base = int(a[1].(int64))
+				}
+				return bi.real.Text(base)
+			}
+			return bi.label
+		}
+	case "(*math/big.Int).Cmp":
+		return func(m *machine, c *frame, fn *ssa.Function, a []value) value {
+			x, xNil := bigOf(a[0])
+			y, yNil := bigOf(a[1])
+			if xNil || yNil {
+				panic(targetPanic{rt: "invalid memory address or nil pointer dereference"})
+			}
+			if x.real != nil && y.real != nil {
+				return int64(x.real.Cmp(y.real))
+			}
+			if x.sig != nil && y.sig != nil {
+				// an arbitrary but fixed total order on signature tokens
+				return int64(strings.Compare(x.label, y.label))
+			}
+			if x.sig == nil && y.sig == nil && x.real == nil && y.real == nil {
+				m.ctr++
+				t := m.tt.Var(fmt.Sprintf("!cmp%d", m.ctr), sBV(64))
+				m.addPC(m.tt.And(m.tt.Cmp("bvsle", m.tt.BVConst(^uint64(0), 64), t), m.tt.Cmp("bvsle", t, m.tt.BVConst(1, 64))))
+				return t
+			}
+			// token vs parsed number: tokens stand for large positive numbers
+			if x.sig != nil {
+				return int64(1)
+			}
+			return int64(-1)
+		}
+	case "(*math/big.Int).Sign":
+		return func(m *machine, c *frame, fn *ssa.Function, a []value) value {
+			bi, isNil := bigOf(a[0])
+			if isNil {
+				panic(targetPanic{rt: "invalid memory address or nil pointer dereference"})
+			}
+			if t, ok := bi.sign.(*Term); ok {
+				return m.tt.SignExt(t, 64)
+			}
+			return bi.sign
+		}
+	case "github.com/mosaicnetworks/babble/src/common.EncodeToString":
+		return func(m *machine, c *frame, fn *ssa.Function, a []value) value {
+			data, _ := a[0].([]value)
+			if _, ok := concBytes(data); ok || len(data) == 0 {
+				return declined{} // concrete: run the real code
+			}
+			// "0X%X" on symbolic bytes: per-nibble upper-case hex
+			out := []value{int64('0'), int64('X')}
+			hexd := func(n *Term) value {
+				lt10 := m.tt.Cmp("bvult", n, m.tt.BVConst(10, 8))
+				return m.lower(m.tt.Ite(lt10, m.tt.BV("bvadd", n, m.tt.BVConst('0', 8)), m.tt.BV("bvadd", n, m.tt.BVConst('A'-10, 8))), 8, false)
+			}
+			for _, b := range data {
+				t := m.bvOf(b, 8)
+				out = append(out, hexd(m.tt.BV("bvlshr", t, m.tt.BVConst(4, 8))), hexd(m.tt.BV("bvand", t, m.tt.BVConst(15, 8))))
+			}
+			return mkString(out)
+		}
+	case "encoding/json.Marshal":
+		return func(m *machine, c *frame, fn *ssa.Function, a []value) value {
+			itf := a[0].(iface)
+			if itf.t == nil {
+				unsupp("json.Marshal(nil)")
+			}
+			return tuple{m.encode(itf.t, itf.v), iface{}}
+		}
+	}
+	// methods Marshal / MarshalDB of repository types and encoding/json
+	if strings.HasPrefix(pkg, modPath) && fn.Signature.Recv() != nil && fn.Name() == "Marshal" && fn.Signature.Params().Len() == 0 {
+		return func(m *machine, c *frame, fn *ssa.Function, a []value) value {
+			rt := fn.Signature.Recv().Type()
+			if p, ok := rt.Underlying().(*types.Pointer); ok {
+				ptr, _ := a[0].(*value)
+				if ptr == nil {
+					panic(targetPanic{rt: "invalid memory address or nil pointer dereference"})
+				}
+				return tuple{m.encode(p.Elem(), *ptr), iface{}}
+			}
+			return tuple{m.encode(rt, a[0]), iface{}}
+		}
+	}
+	return nil
+}
+
+func ecdsaVerifyStub(m *machine, c *frame, fn *ssa.Function, a []value) value {
+	r, rNil := bigOf(a[2])
+	if rNil {
+		panic(targetPanic{rt: "invalid memory address or nil pointer dereference"})
+	}
+	pos := func(bi *bigInfo) value {
+		if t, ok := bi.sign.(*Term); ok {
+			return m.lower(m.tt.Cmp("bvslt", m.tt.BVConst(0, 8), t), 0, false)
+		}
+		return bi.sign.(int64) > 0
+	}
+	if !m.branch(pos(r)) {
+		return false
+	}
+	s, sNil := bigOf(a[3])
+	if sNil {
+		panic(targetPanic{rt: "invalid memory address or nil pointer dereference"})
+	}
+	if !m.branch(pos(s)) {
+		return false
+	}
+	id, xNil, pubNil := keyIDOfPub(a[0])
+	if pubNil || xNil {
+		panic(targetPanic{rt: "invalid memory address or nil pointer dereference"})
+	}
+	if r.sig == nil || s.sig == nil || r.sig != s.sig || r.part != 0 || s.part != 1 {
+		return false
+	}
+	d, ok := concBytes(a[1])
+	if !ok {
+		unsupp("verification against a symbolic digest")
+	}
+	if r.sig.key != id || r.sig.digest != string(d) {
+		return false
+	}
+	return r.sig.ok
+}
+
+func bigSetString(m *machine, c *frame, fn *ssa.Function, a []value) value {
+	base, ok := a[2].(int64)
+	if !ok {
+		unsupp("big.Int.SetString with symbolic base")
+	}
+	fail := tuple{(*value)(nil), false}
+	if s, ok := concStr(a[1]); ok {
+		for _, rec := range m.sigs {
+			for part := 0; part < 2; part++ {
+				if sigLabel(rec, part) == s {
+					return tuple{m.sigBig(rec, part), true}
+				}
+			}
+		}
+		z, good := new(big.Int).SetString(s, int(base))
+		if !good {
+			return fail
+		}
+		return tuple{newCell(&opaque{kind: "bigint", data: &bigInfo{label: s, sign: int64(z.Sign()), real: z}}), true}
+	}
+	if base != 36 {
+		unsupp("big.Int.SetString on symbolic string with base %d", base)
+	}
+	b := m.strBytes(a[1])
+	if len(b) == 0 {
+		return fail
+	}
+	tt := m.tt
+	first := m.bvOf(b[0], 8)
+	isMinus := tt.Eq(first, tt.BVConst('-', 8))
+	isPlus := tt.Eq(first, tt.BVConst('+', 8))
+	signed := tt.Or(isMinus, isPlus)
+	// digits: all of b[1:] when signed (and at least one), all of b otherwise
+	var restOK []*Term
+	for _, ch := range b[1:] {
+		restOK = append(restOK, isBase36(m.bvOf(ch, 8), m))
+	}
+	rest := tt.And(restOK...)
+	var valid *Term
+	if len(b) == 1 {
+		valid = isBase36(first, m)
+	} else {
+		valid = tt.And(rest, tt.Or(signed, isBase36(first, m)))
+	}
+	if !m.branch(m.lower(valid, 0, false)) {
+		return fail
+	}
+	// sign: zero iff all digits are '0'
+	var zeros []*Term
+	for i, ch := range b {
+		z := tt.Eq(m.bvOf(ch, 8), tt.BVConst('0', 8))
+		if i == 0 {
+			z = tt.Or(z, signed)
+		}
+		zeros = append(zeros, z)
+	}
+	allZero := tt.And(zeros...)
+	sign := tt.Ite(allZero, tt.BVConst(0, 8), tt.Ite(isMinus, tt.BVConst(0xff, 8), tt.BVConst(1, 8)))
+	m.ctr++
+	return tuple{newCell(&opaque{kind: "bigint", data: &bigInfo{label: fmt.Sprintf("symnum%d", m.ctr), sign: m.lower(sign, 8, true)}}), true}
+}
+
+type declined struct{}
+
+func verifKeyStub(m *machine, c *frame, fn *ssa.Function, a []value) value {
+	i, ok := a[0].(int64)
+	if !ok || i < 0 || i >= maxVerifKeys {
+		unsupp("verifKey needs a concrete index 0..%d", maxVerifKeys-1)
+	}
+	return m.keyObj(int(i))
+}
+
+// verifSignature(key, digest, ok): a well-formed signature string that
+// verifies under key for digest iff ok.
+func verifSignatureStub(m *machine, c *frame, fn *ssa.Function, a []value) value {
+	priv, _ := a[0].(*value)
+	if priv == nil {
+		unsupp("verifSignature with nil key")
+	}
+	st := (*priv).(structure)
+	id, _, _ := keyIDOfPub(newCell(st[0]))
+	rec := m.newSig(id, a[1], a[2])
+	return sigLabel(rec, 0) + "|" + sigLabel(rec, 1)
+}
